@@ -96,11 +96,13 @@ class NegativeFluentRemover(IdentityDagWalker):
                     temp = right
                     right = left
                     left = temp
+                # each side ranges over the objects of its own type: with hierarchical
+                # types one side can be of a subtype of the other
                 if left.is_constant():
                     left_list = [left.constant_value()]
                 else:
-                    left_list = list(self._problem.objects(type_here))
-                right_list = list(self._problem.objects(type_here))
+                    left_list = list(self._problem.objects(left.type))
+                right_list = list(self._problem.objects(right.type))
                 # if there are no objects of the usertype we cannot compile this
                 if (len(left_list) <= 0) or (len(right_list) <= 0):
                     raise UPUsageError(
